@@ -139,6 +139,27 @@ def distribution(c):
         st.pop('results', None)
 
 
+def harness_findings(c):
+    """Property-level facts the correspondence harness sees by itself (results the pool handed out and later changed)."""
+    try:
+        path = c['paths']['obs'] + '.findings'
+        lines = [l for l in open(path, errors='replace').read().split('\n') if l.strip()]
+    except Exception:
+        return
+    for l in lines:
+        try:
+            f = json.loads(l)
+        except Exception:
+            continue
+        c.setdefault('violations', []).append(dict(key=f['key'], desc=f['desc'],
+            replay=dict(cmd='harness/bin/c17 mode=corr replay=<file with the history lines> (the harness re-reads every returned batch after each op)',
+                        history=f.get('history', []))))
+    try:
+        os.remove(path)
+    except Exception:
+        pass
+
+
 def gen(ctx):
     rc, so, se = vlib.go_run_gen(ctx, 'c17facts', ['repo=' + ctx.repo])
     if rc != 0:
@@ -153,6 +174,7 @@ def correspond(ctx):
     c['name'] = 'pool-scripts'
     both_bad_op(c, 12)
     distribution(c)
+    harness_findings(c)
     # TxPool.Clear() re-binds the pool's store for the rest of the process: a process of its own
     c2 = vlib.correspond(ctx, 'c17', 'C17', ['clear=1'], canon=canon, timeout=600, nontrivial=nontrivial)
     c2['name'] = 'pool-clear'
